@@ -99,7 +99,7 @@ def bcx (M a : String) (BL BR : Block) : Cx where
   bindR := [("__ref_require", 2)]
   CF := fun _ ρ k call => call = callClosure ρ k
   I := fun _ β σ σ' => LFacts M a BL β σ ∧ RFacts a BR β σ' ∧ Coupled a β σ σ'
-  stable := fun _ β β' σ σ' s s' he hf hI =>
+  stable := fun _ β β' σ σ' s s' he _ hf hI =>
     ⟨lfacts_stable he hf hI.1, rfacts_stable he hf hI.2.1,
       coupled_stable he hf ⟨hI.1.pt.1, hI.1.pt.2.2⟩ ⟨hI.2.1.pt.1, hI.2.1.pt.2.1⟩ hI.2.2⟩
 
